@@ -3691,7 +3691,8 @@ class locked_index:
         try:
             f = SHA1Writer(self._file)
             write_index_dict(f, self._index._byname)
+            # close() writes the checksum, which can fail like any other write
+            f.close()
         except BaseException:
             self._file.abort()
-        else:
-            f.close()
+            raise
